@@ -55,6 +55,7 @@ func runC12(c *Ctx, r *Report) {
 	c12Paired(c, r)
 	c12Index(c, r)
 	c12ValueOnly(c, r)
+	c12NoRecordDropped(c, r)
 }
 
 func c12Ownership(c *Ctx, r *Report) {
@@ -563,3 +564,257 @@ func keyProvenPresent(site ssa.CallInstruction, rec, key ssa.Value) bool {
 }
 
 var _ callgraph.Graph
+
+// ---- R12.6 ------------------------------------------------------------------
+// A field-restructuring verb never drops a record.
+var c12VerbFiles = []string{"cut.go", "template.go", "reorder.go", "rename.go", "label.go", "regularize.go", "sort_within_records.go", "unsparsify.go", "sparsify.go", "fill_empty.go", "nest.go", "reshape.go", "flatten.go", "unflatten.go", "json_stringify.go", "json_parse.go", "sec2gmt.go", "sec2gmtdate.go", "altkv.go", "case.go", "unspace.go", "subs.go"}
+
+func c12NoRecordDropped(c *Ctx, r *Report) {
+	r.Rule("R12.6", "a restructuring verb passes every record on: in the record functions of the C12 verbs (those taking the input record and the output list), every path through the not-end-of-stream branch to a successful return appends to the output list, hands the output list to another function, or keeps the record in the verb's state (stores it, or passes it to a method of a state field) — a path that does none of these silently drops the record (e.g. 'no field matched' without the pass-through)")
+	n := 0
+	for _, file := range c12VerbFiles {
+		for _, fn := range funcsInFile(c, "pkg/transformers", file) {
+			var inrec, outlist ssa.Value
+			for _, p := range fn.Params {
+				ts := p.Type().String()
+				if strings.HasSuffix(ts, "types.RecordAndContext") && strings.HasPrefix(ts, "*") && !strings.HasPrefix(ts, "*[]") {
+					inrec = p
+				}
+				if strings.HasPrefix(ts, "*[]*") && strings.HasSuffix(ts, "types.RecordAndContext") {
+					outlist = p
+				}
+			}
+			if inrec == nil || outlist == nil {
+				continue
+			}
+			// the not-end-of-stream branch
+			var start *ssa.BasicBlock
+			for _, b := range fn.Blocks {
+				iff, ok := b.Instrs[len(b.Instrs)-1].(*ssa.If)
+				if !ok {
+					continue
+				}
+				cond, pol := stripNot(iff.Cond, true)
+				if base, name, ok := fieldLoadName(cond); ok && name == "EndOfStream" && isParamOf(base, fn) {
+					if pol {
+						start = b.Succs[1]
+					} else {
+						start = b.Succs[0]
+					}
+				}
+			}
+			if start == nil {
+				continue
+			}
+			n++
+			if why, ok := manyToOne[SSAName(fn)]; ok {
+				r.OK("R12.6", SSAName(fn), c.Rel(fn.Pos()), "frozen exception: "+why)
+				continue
+			}
+			// values that stand for the input record
+			isRec := func(v ssa.Value) bool {
+				for d := 0; d < 4; d++ {
+					if v == inrec {
+						return true
+					}
+					switch x := v.(type) {
+					case *ssa.UnOp:
+						v = x.X
+					case *ssa.FieldAddr:
+						v = x.X
+					case *ssa.MakeInterface:
+						v = x.X
+					default:
+						return false
+					}
+				}
+				return false
+			}
+			bad := ""
+			var walk func(b *ssa.BasicBlock, seen map[*ssa.BasicBlock]bool)
+			walk = func(b *ssa.BasicBlock, seen map[*ssa.BasicBlock]bool) {
+				if bad != "" || seen[b] {
+					return
+				}
+				seen2 := map[*ssa.BasicBlock]bool{}
+				for k := range seen {
+					seen2[k] = true
+				}
+				seen2[b] = true
+				// a loop whose body emits counts as emitting when the loop is known to run at least
+				// once: it is entered on the non-empty edge of a test of the container it walks
+				if blockReachesSelf(b) && loopKnownNonEmpty(b) {
+					for _, lb := range fn.Blocks {
+						if !(blockReaches(b, lb) && blockReaches(lb, b)) {
+							continue
+						}
+						for _, in := range lb.Instrs {
+							if st, ok := in.(*ssa.Store); ok && st.Addr == outlist {
+								return
+							}
+							if call, ok := in.(ssa.CallInstruction); ok {
+								for _, a := range call.Common().Args {
+									if a == outlist {
+										return
+									}
+								}
+							}
+						}
+					}
+				}
+				for _, in := range b.Instrs {
+					switch x := in.(type) {
+					case *ssa.Store:
+						if x.Addr == outlist {
+							return // emitted
+						}
+						if isRec(x.Val) {
+							if _, local := x.Addr.(*ssa.Alloc); !local {
+								return // kept
+							}
+						}
+					case ssa.CallInstruction:
+						com := x.Common()
+						for _, a := range com.Args {
+							if a == outlist {
+								return // delegated
+							}
+							// a range-over-func loop body (or any callback) that emits: the closure captures the output list
+							if mc, ok := a.(*ssa.MakeClosure); ok {
+								if cf, ok := mc.Fn.(*ssa.Function); ok && closureEmits(cf, mc, outlist) {
+									return
+								}
+							}
+						}
+						// record handed to a method of a state field, or appended to one
+						if len(com.Args) >= 2 {
+							recv := com.Args[0]
+							if ld, ok := recv.(*ssa.UnOp); ok {
+								if _, isField := ld.X.(*ssa.FieldAddr); isField {
+									for _, a := range com.Args[1:] {
+										if isRec(a) {
+											return
+										}
+									}
+								}
+							}
+						}
+						if com.IsInvoke() {
+							for _, a := range com.Args {
+								if isRec(a) {
+									return
+								}
+							}
+						}
+					case *ssa.Return:
+						if n := len(x.Results); n > 0 && isErrorType(x.Results[n-1].Type()) && !ReturnsNilError(x) {
+							return
+						}
+						bad = c.Rel(x.Pos())
+						return
+					case *ssa.Panic:
+						return
+					}
+				}
+				for _, s := range b.Succs {
+					walk(s, seen2)
+				}
+			}
+			walk(start, map[*ssa.BasicBlock]bool{})
+			r.Check(bad == "", "R12.6", SSAName(fn), c.Rel(fn.Pos()), "every record path emits, delegates or keeps",
+				fmt.Sprintf("%s has a path through its per-record branch to the successful return at %s on which the record is neither appended to the output, handed on, nor kept: that record disappears", SSAName(fn), bad))
+		}
+	}
+	r.Floor("R12.6", "record functions of the restructuring verbs", n, 25)
+}
+
+var manyToOne = map[string]string{
+	"(*pkg/transformers.TransformerNest).explodeValuesAcrossRecords": "the emitting loop ranges over strings.SplitSeq, which yields at least one piece for every input (the empty string gives one empty piece), so every record gives at least one output record",
+	"(*pkg/transformers.TransformerNest).explodePairsAcrossRecords":  "as above: strings.SplitSeq yields at least one piece",
+	"(*pkg/transformers.TransformerNest).implodeValueAcrossRecords": "many-to-one mode: records whose other fields are equal are merged into the first of them (kept as the bucket's representative); of the later ones only the imploded field's value is kept, by design",
+	"(*pkg/transformers.TransformerReshape).longToWide":             "many-to-one mode: the long records of one group are merged into one wide record; each record's key/value pair is stored in the bucket, the record itself is not passed on, by design",
+}
+
+// closureEmits: the closure stores to the output list it captured.
+func closureEmits(cf *ssa.Function, mc *ssa.MakeClosure, outlist ssa.Value) bool {
+	if cf.Blocks == nil {
+		return false
+	}
+	for i, fv := range cf.FreeVars {
+		if i >= len(mc.Bindings) {
+			break
+		}
+		b := mc.Bindings[i]
+		bound := b == outlist
+		if al, ok := b.(*ssa.Alloc); ok {
+			for _, ref := range *al.Referrers() {
+				if st, ok := ref.(*ssa.Store); ok && st.Addr == al && st.Val == outlist {
+					bound = true
+				}
+			}
+		}
+		if !bound {
+			continue
+		}
+		for _, blk := range cf.Blocks {
+			for _, in := range blk.Instrs {
+				st, ok := in.(*ssa.Store)
+				if !ok {
+					continue
+				}
+				if st.Addr == ssa.Value(fv) {
+					return true
+				}
+				if ld, ok := st.Addr.(*ssa.UnOp); ok && ld.X == ssa.Value(fv) {
+					return true
+				}
+			}
+		}
+	}
+	return false
+}
+
+// loopKnownNonEmpty: the loop headed by b walks a linked container from its
+// Head, and b is reached on the non-empty edge of an IsEmpty() / Head != nil /
+// FieldCount test of that same container.
+func loopKnownNonEmpty(b *ssa.BasicBlock) bool {
+	// the container: phi [load X.Head, …] tested against nil in b
+	var container ssa.Value
+	for _, in := range b.Instrs {
+		phi, ok := in.(*ssa.Phi)
+		if !ok {
+			continue
+		}
+		for _, e := range phi.Edges {
+			if base, name, ok := fieldLoadName(e); ok && name == "Head" {
+				container = base
+			}
+		}
+	}
+	if container == nil {
+		return false
+	}
+	same := func(v ssa.Value) bool {
+		if v == container {
+			return true
+		}
+		la, ok1 := v.(*ssa.UnOp)
+		lb, ok2 := container.(*ssa.UnOp)
+		return ok1 && ok2 && la.X == lb.X
+	}
+	for _, g := range GuardsAt(b) {
+		switch x := g.Cond.(type) {
+		case *ssa.Call:
+			if strings.HasSuffix(CalleeName(&x.Call), ".IsEmpty") && len(x.Call.Args) == 1 && same(x.Call.Args[0]) && !g.Polarity {
+				return true
+			}
+		case *ssa.BinOp:
+			if base, name, ok := fieldLoadName(x.X); ok && (name == "Head" || name == "FieldCount") && same(base) {
+				if (x.Op == token.NEQ && g.Polarity) || (x.Op == token.EQL && !g.Polarity) || (x.Op == token.GTR && g.Polarity) {
+					return true
+				}
+			}
+		}
+	}
+	return false
+}
